@@ -165,4 +165,16 @@ package eval
 //@   witness ri = callresult after Eval#2
 //@   ensures  strslice:: implies(isStr(left) && isInt(li) && rightIdx != nil && isInt(ri) && 0 <= intVal(li) && intVal(li) <= intVal(ri) && intVal(ri) <= len(strVal(left)), isStr(result) && strVal(result) == strVal(left)[intVal(li):intVal(ri)])
 //@   ensures  notint:: implies(!isInt(li) && !isReg(li), isErr(result))
+//@   ensures  badorder:: implies(isStr(left) && isInt(li) && rightIdx != nil && isInt(ri) && ite(intVal(li) < 0, max(intVal(li) + len(strVal(left)), 0), intVal(li)) > normIdx(intVal(ri), len(strVal(left))), isErr(result))
+//@   ensures  negslice:: implies(isStr(left) && isInt(li) && rightIdx != nil && isInt(ri) && intVal(li) < 0 && intVal(ri) < 0 && -len(strVal(left)) <= intVal(li) && intVal(li) <= intVal(ri), isStr(result) && strVal(result) == strVal(left)[intVal(li)+len(strVal(left)):intVal(ri)+len(strVal(left))])
 //@   property C01 C07
+
+// applyExtension: what every extension callback may rely on (argument count within [MinArgs, MaxArgs]).
+//@ func (*State).applyExtension
+//@   requires s != nil && s.env != nil
+//@   modifies *
+//@   nosafety
+//@   maypanic *
+//@   dyncall Callback requires mincount:: len(arg2) >= fn.MinArgs
+//@   dyncall Callback requires maxcount:: fn.MaxArgs == -1 || len(arg2) <= fn.MaxArgs
+//@   property C07
